@@ -7,6 +7,10 @@ of Simulation.save_results regenerated from the source)
    each history compared step by step and state by state with the Coq model (vm_compute)
  + the name choice of Simulation.fix_output_filenames (Skip / ValueError / out[_i].ext) on generated directory contents,
    compared with Model/FixNames.v `fix_name` (stream fix-name, checker Model/FixNamesCheck.v)
+ + resume equivalence over the simulation options that interact with a resume (stream real-resume-options: engine class, output
+   format, group_sites, measure_initial, save_every_x_seconds, save_psi / save_resume_data), with psi.grouped and the lengths of psi
+   and model observed after every group_sites_for_algorithm / group_split and compared with Model/ResumeProto.v g_enter / g_split
+   (check_group); the grouping guard also called directly on pre-grouped states (stream group-guard)
  + oracles written from the property text (a loadable file of the last completed checkpoint exists after
    every crash; resumed runs finish with the results of the plain run; none lost, none duplicated).
 """
